@@ -33,7 +33,7 @@ CHECKS = {
         design="DESIGN.md §4 C03",
     ),
     "C04": dict(
-        rules="R04.1-R04.7",
+        rules="R04.1-R04.8",
         what="atomic temporary+os.replace publication and OSError containment in the file store; every MetadataStore.write result checked; no CacheMeta after a failed data write/getmtime; data before meta, provenance of the meta pair, dep_hashes before the meta write, commit after every write group; old meta_ex invalidated before a new meta becomes durable; find_cache_meta treats a missing meta_ex as a miss; a module's records share one shard of the sqlite store (names differ only after the first dot of the basename, which is all the shard key reads); the data write is skipped only after the stored data record was read and compared",
         quant="kill points and failing store operations",
         technique="CFG must-pass-through / reachability queries over the cache-writing functions, who-may-write rule",
@@ -57,7 +57,7 @@ CHECKS = {
         design="DESIGN.md §4 C06",
     ),
     "C07": dict(
-        rules="R07.1-R07.8",
+        rules="R07.1-R07.9",
         what="commit-before-reply in the worker for both phases; readiness gating by not_ready_count and interface-only done marking in the coordinator; agreement of the step sets of the sequential and the two-phase path; commit before the first broadcast; coordinator-side import errors recorded, shipped for every module of the batch and replayed by the worker",
         quant="schedules of batches over workers",
         technique="CFG must-pass-through queries, guard-chain (control dependence) checks, sibling cross-check of step sets",
@@ -105,7 +105,7 @@ CHECKS = {
         design="DESIGN.md §4 C10",
     ),
     "C11": dict(
-        rules="R11.1-R11.11",
+        rules="R11.1-R11.12",
         what="wire grammar of write equals wire grammar of read for 46 serializer classes and the helper pairs, down to librt primitives; field and flag label alignment; tag table integrity and dispatcher exhaustiveness; JSON key/attribute agreement and JSON==binary attribute sets; count/emit filter agreement; sorted iteration in interface serializers; order discipline (only sets may be written sorted); __eq__ fields and declared attributes covered by serialization; fix-up covers every by-reference field; optional fields are encoded by an identity test against None",
         quant="symbols, types and flag combinations of all modules",
         technique="wire-grammar extraction (abstract interpretation of serializer bodies in evaluation order) and structural term comparison; sibling cross-checks",
@@ -155,7 +155,7 @@ CHECKS = {
 }
 
 CHECKS["C18"] = dict(
-    rules="R18.1-R18.2",
+    rules="R18.1-R18.3",
     what="graph insertion discipline of build.load_graph: every insertion of a State is dominated by the clash test for its kind (module id already in the graph; file already seen under another id), the clash branch reports a blocker and raises, inserted paths are recorded; find_sources and modulefinder share one suffix table with the stub suffix first and one package marker",
     quant="directory layouts x flag settings x argument orders",
     technique="CFG must-pass / reachability queries over load_graph; constant evaluation and sibling cross-check of the two path-mapping modules' tables",
